@@ -371,10 +371,15 @@ func (r *run) execute() {
 		r.rec.Emit("GiveUp", ab.Rec{"cycle": r.cyc, "pending_events": r.eng.Pending(), "delivered": next})
 		return
 	}
-	// final storage: every interleave-aligned 64-byte block touched by a request, completely
+	// final storage: every aligned block (64 bytes, or the converter's chunk if that is smaller: addresses outside the
+	// chunk belong to another memory) touched by a request, completely
+	gran := uint64(64)
+	if c.Aconv != nil && c.Aconv.Isz < gran {
+		gran = c.Aconv.Isz
+	}
 	blocks := map[uint64]bool{}
 	for _, q := range sc.Reqs {
-		for x := q.A &^ 63; x < q.A+uint64(q.N); x += 64 {
+		for x := q.A &^ (gran - 1); x < q.A+uint64(q.N); x += gran {
 			blocks[x] = true
 		}
 	}
@@ -385,7 +390,7 @@ func (r *run) execute() {
 	sort.Slice(keys, func(i, j int) bool { return keys[i] < keys[j] })
 	store := [][]interface{}{}
 	for _, k := range keys {
-		data, err := r.comp.Storage.Read(c.storeAddr(k), 64)
+		data, err := r.comp.Storage.Read(c.storeAddr(k), gran)
 		if err != nil {
 			panic(err)
 		}
